@@ -1,2 +1,130 @@
 """harness/extra.py — property-specific additions registered into run.EXTRA / KNOWN_EXTRA / PROP_TRUST."""
-from . import run
+import sys, math
+import numpy as np
+from fractions import Fraction as Fr
+from . import run, gens, corr, adapters, pyxrun, pyx2py
+from .suites import S
+
+PYX_TRUST = [
+    'the .pyx sources are never compiled here (no Cython in the sandbox): they are transliterated on every run by harness/pyx2py.py (typed memoryviews → bounds-checked views, `/` → IEEE division, libc fabs/fmax/fmin, nogil/cdef stripped); trusted: that this preserves the meaning of the Cython subset used',
+]
+
+MODEL_OP = {'pyx_isi_profile': 'isi_profile', 'pyx_isi_dist': 'isi_dist_k', 'pyx_spike_profile': 'spike_profile',
+            'pyx_spike_dist': 'spike_dist_k', 'pyx_coinc_value': 'coinc_value_k', 'pyx_order_value': 'order_value_k',
+            'pyx_dir_value': 'dir_value_k'}
+TO_PYX = {'isi_profile': ['pyx_isi_profile', 'pyx_isi_dist'], 'spike_profile': ['pyx_spike_profile', 'pyx_spike_dist'],
+          'coinc_profile': ['coinc_profile', 'pyx_coinc_value'], 'order_profile': ['order_profile', 'pyx_order_value'],
+          'coinc_single': ['coinc_single'], 'dir_profile': ['dir_profile', 'pyx_dir_value'],
+          'get_tau': ['get_tau'], 'add_pwc': ['add_pwc'], 'add_pwl': ['add_pwl'], 'add_disc': ['add_disc']}
+
+
+def pyx_runner(op, f):
+    return pyxrun.kernel(MODEL_OP.get(op, op), f)
+
+
+def is_f12(op, f):
+    """both trains consist of a single spike located on t_end (single-pass distance routines)"""
+    if op not in ('pyx_isi_dist', 'pyx_spike_dist', 'isi_dist_k', 'spike_dist_k'):
+        return False
+    s1, s2, p = f
+    return len(s1) == 1 and len(s2) == 1 and s1[0] == p[1] and s2[0] == p[1]
+
+
+def is_f10(op, f):
+    """two empty trains (spike_train_order_cython returns (1,1), the profile integral is (0,0))"""
+    return op in ('order_value_k',) and len(f[0]) == 0 and len(f[1]) == 0
+
+
+def pyx_cases(tier, rng):
+    for op in ('isi_profile', 'spike_profile', 'coinc_profile', 'order_profile', 'coinc_single', 'dir_profile'):
+        base = list(gens.kernel_grid(op, S(tier, 3, 4))) + list(gens.kernel_random(op, rng, S(tier, 600, 6000)))
+        if op in ('coinc_profile', 'order_profile', 'coinc_single', 'dir_profile'):
+            base += [c for c in gens.tau_tie_cases(rng, S(tier, 40, 400)) if c[0] == op]
+        for o, f, tg in base:
+            for po in TO_PYX[op]:
+                yield po, f, tg
+    for o, f, tg in gens.get_tau_cases(rng, S(tier, 1500, 15000)):
+        yield o, f, tg
+    for o, f, tg in gens.add_cases(rng, S(tier, 4, 6)):
+        yield o, f, tg
+
+
+def twin_equal(a, b):
+    if isinstance(a, str) or isinstance(b, str):
+        return a == b
+    if len(a) != len(b):
+        return False
+    for x, y in zip(a, b):
+        if len(x) != len(y):
+            return False
+        if not np.allclose(np.asarray(x, dtype=float), np.asarray(y, dtype=float), rtol=1e-12, atol=1e-12):
+            return False
+    return True
+
+
+def c12_extra(tier, rng, stats):
+    """(1) every transliterated .pyx routine against its Lean model, (2) against its .py twin"""
+    out = {'suites': [], 'evaluated': 0, 'nontrivial': 0, 'disagreements': [], 'violations': [], 'notes': []}
+    try:
+        pyxrun.mods()
+    except pyx2py.Untranslatable as ex:
+        out['disagreements'].append({'suite': 'pyx-translate', 'op': '-', 'request': '-', 'model': '-', 'implementation': '-',
+                                     'difference': 'a .pyx source uses a construct outside the transliterated subset: %s' % ex})
+        return out
+    cases = list(pyx_cases(tier, rng))
+    r = corr.run_cases('pyx-vs-model', cases, stats, runner=pyx_runner, max_dis=200)
+    known = {'F12': 0, 'F10': 0}
+    dis = []
+    for d in r['disagreements']:
+        if is_f12(d.op, d.fields) and 'nan' in str(d.real).lower():
+            known['F12'] += 1
+        else:
+            dis.append(d.as_dict())
+    out['suites'].append({'suite': 'pyx-vs-model', 'evaluated': r['evaluated'], 'disagreements': len(dis), 'skipped': r['skipped'], 'known_class_hits': dict(known)})
+    out['evaluated'] += r['evaluated']; out['nontrivial'] += r['distinct_nontrivial']
+    out['disagreements'] += dis
+    # twins, directly
+    n = 0; bad = []
+    for op, f, tg in cases:
+        kop = MODEL_OP.get(op, op)
+        a = pyxrun.kernel(kop, f)
+        b = pyxrun.py_twin(kop, f)
+        n += 1
+        if not twin_equal(a, b):
+            if is_f12(kop, f):
+                known['F12'] += 1
+            elif is_f10(kop, f):
+                known['F10'] += 1
+            else:
+                bad.append({'suite': 'pyx-vs-py', 'op': kop, 'request': corr.line_of(kop, f), 'model': 'py twin: %r' % (b,), 'implementation': 'pyx: %r' % (a,),
+                            'difference': 'the Cython routine and its pure-Python twin differ'})
+                if len(bad) >= 10:
+                    break
+    out['suites'].append({'suite': 'pyx-vs-py', 'evaluated': n, 'disagreements': len(bad), 'skipped': None, 'known_class_hits': dict(known)})
+    out['evaluated'] += n
+    for b in bad:
+        # a concrete input on which the two backends differ IS a failing input for C12
+        out['violations'].append(('__direct__', b))
+    out['disagreements'] += bad
+    out['notes'].append('known-class hits (excluded from the comparison): %r' % known)
+    return out
+
+
+run.EXTRA['C12'] = c12_extra
+for p in ('C12', 'C05', 'C07', 'C13', 'C14', 'C18'):
+    run.PROP_TRUST[p] = PYX_TRUST
+
+
+def r_F10():
+    a = pyxrun.kernel('order_value_k', [[], [], [Fr(0), Fr(4), Fr(0), Fr(0)]])
+    b = pyxrun.py_twin('order_value_k', [[], [], [Fr(0), Fr(4), Fr(0), Fr(0)]])
+    return a != b, {'spike_train_order_cython(∅,∅)': a, 'integral of the Python order profile': b}
+
+
+def r_F12():
+    f = [[Fr(4)], [Fr(4)], [Fr(0), Fr(4), Fr(0)]]
+    a = pyxrun.kernel('isi_dist_k', f)
+    return (not isinstance(a, str)) and math.isnan(a[0][0]), {'isi_distance_cython([4],[4]) on [0,4]': a}
+
+
+run.KNOWN_EXTRA['C12'] = lambda: {('F10', 'C12'): r_F10, ('F12', 'C12'): r_F12}
